@@ -3301,6 +3301,10 @@ impl Zeroconf {
                 if qtype == RRType::ANY && msg.num_authorities() > 0 {
                     if let Some(probe) = dns_registry.probing.get_mut(q_name) {
                         probe.tiebreaking(&msg, q_name);
+
+                        // If we lost, the probe restarts one second later:
+                        // make sure the run loop wakes up for it.
+                        self.timers.push(Reverse(probe.next_send));
                     }
                 }
 
